@@ -353,11 +353,51 @@ pub fn run_c09(toks: &[&str]) -> Lines {
     if cass != b.cass {
         why.push("scan-cas-differ-from-input".into());
     }
+    // the header scan of the xorb section (positions included)
+    match loaded.read_all_cas_blocks(&mut rd) {
+        Ok(hs) => {
+            if hs.len() != b.cass.len() || hs.iter().zip(b.cass.iter()).any(|(h, c)| h.0 != c.metadata) {
+                why.push("scan-cas-headers-differ-from-input".into());
+            }
+        },
+        Err(e) => why.push(format!("scan-cas-headers-error:{:?}", e)),
+    }
     // streaming / minimal readers
     {
         let mut r2 = Cursor::new(&bytes);
         match MDBMinimalShard::from_reader(&mut r2, true, true) {
             Ok(ms) => {
+                // the same records written back without lookup tables (what MDBMinimalShard::serialize produces; a keyed export
+                // without its tables has the same shape): the scans walk the sections, they do not need the tables
+                let mut nt = vec![];
+                match ms.serialize(&mut nt) {
+                    Ok(_) => {
+                        let mut rn = Cursor::new(&nt);
+                        match MDBShardInfo::load_from_reader(&mut rn) {
+                            Ok(ni) => {
+                                if ni.read_all_file_info_sections(&mut rn).ok().as_ref() != Some(&b.files) {
+                                    why.push("lookup-free-scan-files".into());
+                                }
+                                if ni.read_all_cas_blocks_full(&mut rn).ok().as_ref() != Some(&b.cass) {
+                                    why.push("lookup-free-scan-cas".into());
+                                }
+                                match ni.read_all_cas_blocks(&mut rn) {
+                                    Ok(hs) => {
+                                        if hs.len() != b.cass.len() || hs.iter().zip(b.cass.iter()).any(|(h, c)| h.0 != c.metadata) {
+                                            why.push(format!("lookup-free-scan-cas-headers:{}-of-{}", hs.len(), b.cass.len()));
+                                        }
+                                    },
+                                    Err(e) => why.push(format!("lookup-free-scan-cas-headers-error:{:?}", e)),
+                                }
+                                if ni.stored_bytes_on_disk() != disk || ni.stored_bytes() != stored || ni.materialized_bytes() != mat {
+                                    why.push("lookup-free-footer-totals".into());
+                                }
+                            },
+                            Err(e) => why.push(format!("lookup-free-footer-error:{:?}", e)),
+                        }
+                    },
+                    Err(e) => why.push(format!("lookup-free-serialize-error:{:?}", e)),
+                }
                 if ms.num_files() != b.files.len() || ms.num_cas() != b.cass.len() {
                     why.push("minimal-counts".into());
                 } else {
@@ -880,6 +920,7 @@ pub fn run_c10(toks: &[&str]) -> Lines {
     let reseg = a.files.iter().any(|x| b.files.iter().any(|y| x.metadata.file_hash == y.metadata.file_hash && x.segments.len() != y.segments.len()));
     const K2: &str = "[same-file-other-segmentation: union of two records of one file whose segment lists differ]";
     let mut k2: Vec<String> = vec![];
+    let mut union_bytes: Option<Vec<u8>> = None;
     let assumed = |p: &Box<dyn std::any::Any + Send>| {
         let m = p.downcast_ref::<String>().cloned().or_else(|| p.downcast_ref::<&str>().map(|x| x.to_string())).unwrap_or_default();
         m.contains("num entries for same hash don't match")
@@ -899,6 +940,7 @@ pub fn run_c10(toks: &[&str]) -> Lines {
             }
         },
         Ok((u, iu)) => {
+    union_bytes = Some(u.clone());
     out.push(("obs", format!("disk-union {}", describe_bytes(&u, &iu))));
     check_output("disk-union", &u, &want_files_u, &want_cas_u, &mut why);
     {
@@ -956,6 +998,49 @@ pub fn run_c10(toks: &[&str]) -> Lines {
     if md.shard_file_size() != bmd.len() as u64 {
         why.push(format!("mem-diff-size-accounting:{}!={}", md.shard_file_size(), bmd.len()));
     }
+    // the file-level operations (shard_file_union / shard_file_difference: temporary file, hash of what was written, rename):
+    // without a fault the output file is the reader-level result and its returned hash is its content hash; with the output
+    // cut short inside its last block (a file-size limit: the failure a full disk or a quota produces on the final write)
+    // the call fails and leaves nothing under the output name -- or succeeds with the complete file
+    if let (Some(u), false) = (&union_bytes, reseg) {
+        let dir = tempfile::tempdir().unwrap();
+        let (p1, p2) = (dir.path().join("a.mdb"), dir.path().join("b.mdb"));
+        std::fs::write(&p1, &ba).unwrap();
+        std::fs::write(&p2, &bb).unwrap();
+        let mut judge = |what: String, res: mdb_shard::error::Result<(MerkleHash, MDBShardInfo)>, outp: &std::path::Path, want: &[u8]| match res {
+            Err(_) => {
+                if outp.exists() {
+                    why.push(format!("{}-failed-but-left-an-output-file", what));
+                }
+            },
+            Ok((h, _)) => match std::fs::read(outp) {
+                Ok(got) => {
+                    if got != want {
+                        why.push(format!("{}-reported-success-output-{}-of-{}-bytes", what, got.len(), want.len()));
+                    } else if merklehash::compute_data_hash(&got) != h {
+                        why.push(format!("{}-returned-hash-is-not-the-content-hash", what));
+                    }
+                },
+                Err(_) => why.push(format!("{}-reported-success-without-output", what)),
+            },
+        };
+        let o = dir.path().join("u.mdb");
+        judge("file-union".into(), mdb_shard::set_operations::shard_file_union(&p1, &p2, &o), &o, u);
+        let o = dir.path().join("d.mdb");
+        judge("file-diff".into(), mdb_shard::set_operations::shard_file_difference(&p1, &p2, &o), &o, &d);
+        for cut in [1u64, 57, 300] {
+            if (u.len() as u64) > cut {
+                let o = dir.path().join(format!("u{}.mdb", cut));
+                let r = crate::fslimit::with_file_size_limit(u.len() as u64 - cut, || mdb_shard::set_operations::shard_file_union(&p1, &p2, &o));
+                judge(format!("file-union-cut-{}", cut), r, &o, u);
+            }
+            if (d.len() as u64) > cut {
+                let o = dir.path().join(format!("d{}.mdb", cut));
+                let r = crate::fslimit::with_file_size_limit(d.len() as u64 - cut, || mdb_shard::set_operations::shard_file_difference(&p1, &p2, &o));
+                judge(format!("file-diff-cut-{}", cut), r, &o, &d);
+            }
+        }
+    }
     if reseg {
         // what the unions of such a pair get wrong belongs to K2; the differences are judged as always
         let (un, rest): (Vec<String>, Vec<String>) = why.into_iter().partition(|w| w.starts_with("disk-union") || w.starts_with("mem-union"));
@@ -992,13 +1077,27 @@ pub fn run_c10c(toks: &[&str]) -> Lines {
     let mut all_cas: Vec<MDBCASInfo> = vec![];
     let mut before: std::collections::HashSet<String> = Default::default();
     for (i, g) in groups.iter().enumerate() {
-        let b = build(g);
+        // `nolookup`: this shard is written in the streaming form, records and footer without lookup tables (what
+        // MDBMinimalShard::serialize produces): a valid shard file whose table counts are zero
+        let nolookup = g.iter().any(|op| op[0] == "nolookup");
+        let g: Vec<Vec<&str>> = g.iter().filter(|op| op[0] != "nolookup").cloned().collect();
+        let b = build(&g);
         if b.mem.is_empty() {
             continue;
         }
         all_files.extend(b.files.iter().cloned());
         all_cas.extend(b.cass.iter().cloned());
-        let p = b.mem.write_to_directory(dir.path()).unwrap();
+        let p = if nolookup {
+            let (bytes, _) = serialize(&b.mem);
+            let ms = MDBMinimalShard::from_reader(&mut Cursor::new(&bytes), true, true).unwrap();
+            let mut nt = vec![];
+            ms.serialize(&mut nt).unwrap();
+            let p = dir.path().join(format!("{}.mdb", merklehash::compute_data_hash(&nt).hex()));
+            std::fs::write(&p, &nt).unwrap();
+            p
+        } else {
+            b.mem.write_to_directory(dir.path()).unwrap()
+        };
         before.insert(p.file_name().unwrap().to_string_lossy().to_string());
         // distinct, increasing mtimes so that the grouping order is the write order
         let t = std::time::SystemTime::UNIX_EPOCH + std::time::Duration::from_secs(1_700_000_000 + 10 * i as u64);
@@ -1031,23 +1130,28 @@ pub fn run_c10c(toks: &[&str]) -> Lines {
         }
     }
     // every record retrievable before is retrievable from a returned shard
-    let returned: Vec<(MDBShardInfo, Vec<u8>)> = res
+    // (an input that is returned as it was is judged by a scan of its records: a shard written without lookup tables has none
+    // to answer with; a shard consolidation wrote must answer through its tables)
+    let returned: Vec<(MDBShardInfo, Vec<u8>, bool)> = res
         .iter()
         .filter(|s| s.path.exists())
         .map(|s| {
             let c = std::fs::read(&s.path).unwrap();
-            (MDBShardInfo::load_from_reader(&mut Cursor::new(&c)).unwrap(), c)
+            (MDBShardInfo::load_from_reader(&mut Cursor::new(&c)).unwrap(), c, before.contains(&s.path.file_name().unwrap().to_string_lossy().to_string()))
         })
         .collect();
     for f in &all_files {
-        let found = returned.iter().any(|(i, c)| matches!(i.get_file_reconstruction_info(&mut Cursor::new(c), &f.metadata.file_hash), Ok(Some(_))));
+        let found = returned.iter().any(|(i, c, input)| {
+            matches!(i.get_file_reconstruction_info(&mut Cursor::new(c), &f.metadata.file_hash), Ok(Some(_)))
+                || (*input && i.read_all_file_info_sections(&mut Cursor::new(c)).unwrap_or_default().iter().any(|x| x.metadata.file_hash == f.metadata.file_hash))
+        });
         if !found {
             why.push("file-record-lost".into());
         }
     }
     let ret_cas: std::collections::HashSet<MerkleHash> = returned
         .iter()
-        .flat_map(|(i, c)| i.read_all_cas_blocks_full(&mut Cursor::new(c)).unwrap_or_default().into_iter().map(|x| x.metadata.cas_hash))
+        .flat_map(|(i, c, _)| i.read_all_cas_blocks_full(&mut Cursor::new(c)).unwrap_or_default().into_iter().map(|x| x.metadata.cas_hash))
         .collect();
     for c in &all_cas {
         if !ret_cas.contains(&c.metadata.cas_hash) {
